@@ -6,6 +6,7 @@ import (
 	"fmt"
 	"go/ast"
 	"go/types"
+	"golang.org/x/tools/go/cfg"
 	"sort"
 	"strings"
 )
@@ -440,8 +441,159 @@ func checkWakeRow(r *Reporter, p *Prog, pkg, typ, method string, row wakeRow) {
 			}
 		}
 	}
+	// wake-ups issued through a local function variable that is bound to a method value of a condition
+	// variable (`wake := f.readerCond.Broadcast; if writers > 0 { wake = f.writerCond.Signal }; wake()`):
+	// the call wakes the condition whose method value the variable holds on that path
+	wakeVars := map[types.Object]bool{}
+	condOfMethodValue := func(e ast.Expr) (string, bool) {
+		se, ok := ast.Unparen(e).(*ast.SelectorExpr)
+		if !ok || (se.Sel.Name != "Signal" && se.Sel.Name != "Broadcast") || !isCondType(info.TypeOf(se.X)) {
+			return "", false
+		}
+		inner, ok := ast.Unparen(se.X).(*ast.SelectorExpr)
+		if !ok {
+			return "", false
+		}
+		return inner.Sel.Name, true
+	}
+	for _, b := range f.G.Blocks {
+		if !b.Live {
+			continue
+		}
+		for _, nd := range b.Nodes {
+			if as, ok := nd.(*ast.AssignStmt); ok && len(as.Lhs) == len(as.Rhs) {
+				for i, rhs := range as.Rhs {
+					if _, isMV := condOfMethodValue(rhs); isMV {
+						if o := objOfIdent(info, as.Lhs[i]); o != nil {
+							wakeVars[o] = true
+						}
+					}
+				}
+			}
+		}
+	}
+	wanted := func(cf string) bool {
+		for _, want := range row.Conds {
+			if cf == want {
+				return true
+			}
+		}
+		return false
+	}
+	// searchWithVars: is the exit reachable from `from` without a wake of a wanted condition, tracking
+	// per path what each wake variable currently holds
+	searchWithVars := func(from Point) ([]string, bool) {
+		type vstate map[types.Object]int8 // 1: holds a wanted condition's wake, -1: something else
+		enc := func(b *cfg.Block, vs vstate) string {
+			k := fmt.Sprintf("%p", b)
+			var objs []string
+			for o, v := range vs {
+				objs = append(objs, fmt.Sprintf("%d:%d", o.Pos(), v))
+			}
+			sort.Strings(objs)
+			return k + strings.Join(objs, ",")
+		}
+		init := vstate{}
+		for o := range wakeVars {
+			defs, fromEntry := f.ReachingDefs(from, o)
+			all := len(defs) > 0 && !fromEntry
+			for _, d := range defs {
+				cf, isMV := condOfMethodValue(d.Rhs)
+				if d.Rhs == nil || !isMV || !wanted(cf) {
+					all = false
+				}
+			}
+			if all {
+				init[o] = 1
+			} else {
+				init[o] = -1
+			}
+		}
+		type item struct {
+			b    *cfg.Block
+			i    int
+			vs   vstate
+			path []string
+		}
+		seen := map[string]bool{}
+		queue := []item{{from.B, from.I, init, nil}}
+		for len(queue) > 0 {
+			it := queue[0]
+			queue = queue[1:]
+			if !it.b.Live {
+				continue
+			}
+			if it.i == 0 {
+				k := enc(it.b, it.vs)
+				if seen[k] {
+					continue
+				}
+				seen[k] = true
+			}
+			vs := it.vs
+			stopped := false
+			for i := it.i; i < len(it.b.Nodes) && !stopped; i++ {
+				nd := it.b.Nodes[i]
+				inspectNoLit(nd, func(m ast.Node) bool {
+					if stopped {
+						return false
+					}
+					if isWake(m) {
+						stopped = true
+						return false
+					}
+					if c, ok := m.(*ast.CallExpr); ok {
+						if o := objOfIdent(info, c.Fun); o != nil && wakeVars[o] && vs[o] == 1 {
+							stopped = true
+							return false
+						}
+					}
+					return true
+				})
+				if as, ok := nd.(*ast.AssignStmt); ok && !stopped && len(as.Lhs) == len(as.Rhs) {
+					for k, l := range as.Lhs {
+						if o := objOfIdent(info, l); o != nil && wakeVars[o] {
+							nv := vstate{}
+							for o2, v2 := range vs {
+								nv[o2] = v2
+							}
+							if cf, isMV := condOfMethodValue(as.Rhs[k]); isMV && wanted(cf) {
+								nv[o] = 1
+							} else {
+								nv[o] = -1
+							}
+							vs = nv
+						}
+					}
+				}
+			}
+			if stopped {
+				continue
+			}
+			path := it.path
+			if len(it.b.Nodes) > 0 {
+				path = append(append([]string{}, path...), f.P.posStr(it.b.Nodes[0].Pos()))
+			}
+			if f.isExitBlock(it.b) {
+				return append(path, "exit"), true
+			}
+			for si, sb := range it.b.Succs {
+				if exemptEdges[Edge{it.b, si}] {
+					continue
+				}
+				queue = append(queue, item{sb, 0, vs, path})
+			}
+		}
+		return nil, false
+	}
 	for _, ch := range changes {
-		w, found := f.reach(Point{ch.B, ch.I + 1}, &searchOpts{AvoidNode: isWake, AvoidEdge: func(e Edge) bool { return exemptEdges[e] }}, func(pt Point, atExit bool) bool { return atExit })
+		var w []string
+		var found bool
+		if len(wakeVars) > 0 {
+			w, found = searchWithVars(Point{ch.B, ch.I + 1})
+		} else {
+			w, found = f.reach(Point{ch.B, ch.I + 1}, &searchOpts{AvoidNode: isWake, AvoidEdge: func(e Edge) bool { return exemptEdges[e] }}, func(pt Point, atExit bool) bool { return atExit })
+		}
 		if found {
 			r.Fail("cond/wake-obligation", key, f.PosOf(ch), fmt.Sprintf("after this state change a path reaches the exit without Signal/Broadcast on %v: a blocked waiter is never woken", row.Conds), w...)
 		} else {
